@@ -110,6 +110,30 @@ def check_undirected(item, acc):
         acc.outcomes.add(hash(tuple(sorted(want.items()))))
         if sum(want.values()) >= 2:
             acc.nontrivial.add(hash((order, tuple(sorted(map(tuple, edges))))))
+    # the same object after an in-place change (the census has been computed on it once): a pair that is not yet a hyperedge is
+    # added, the census recomputed, the pair removed, the census recomputed
+    if variant != "sorted" or (order == 4 and len(edges) > 2) or (order == 3 and len(edges) > 4):
+        return
+    have = {tuple(sorted(e)) for e in edges}
+    pair = next((p for p in itertools.combinations(sorted(nodes), 2) if p not in have), None)
+    if pair is None:
+        return
+    for stage, act, es2 in (("add_edge", lambda: h.add_edge(pair), tuple(edges) + (pair,)), ("remove_edge", lambda: h.remove_edge(pair), tuple(edges))):
+        acc.evaluations += 1
+        try:
+            act()
+            obs2 = compute_motifs(h, order=order, runs_config_model=0)["observed"]
+        except Exception as e:
+            acc.violations.append(Violation("undirected/order%d/second-call/exception" % order, "%s then compute_motifs raised %s: %s on %r" % (stage, type(e).__name__, e, edges), w, size))
+            return
+        want2 = census(nodes, es2, order)
+        got2 = {}
+        for rep, cnt in obs2:
+            got2[canon(rep, order)] = cnt
+        diff = {c: (got2.get(c), want2.get(c, 0)) for c in classes if got2.get(c) != want2.get(c, 0)}
+        if diff or len(obs2) != len(classes):
+            acc.violations.append(Violation("undirected/order%d/second-call/counts" % order, "after %s %r on the same object, edges %r: (reported, definition) per class %r" % (stage, pair, edges, diff), w, size))
+            return
 
 
 # ---- directed ------------------------------------------------------------------------------------------
